@@ -764,10 +764,31 @@ def gen_argv(rng: random.Random, files: Dict[str, str], root: str, mode: str = "
 
 
 def generate(rng: random.Random, profile: Optional[Dict[str, Any]] = None) -> Dict[str, Any]:
+    from . import e3_profiles as P
+
     profile = profile or {}
     pname = profile.get("profile", "base")
-    tree = gen_tree(rng, pname)
     k = profile.get("schedules", 3)
+    root = "<ROOT>"
+    if pname in ("preserve", "imports"):
+        tree = P.gen_preserve_tree(rng) if pname == "preserve" else P.gen_imports_tree(rng)
+        case = {"engine": "e3", "profile": pname, "files": tree["files"], "safe": False, "paths": None, "runs": [], "fault": None}
+        if pname == "preserve":
+            case["paths"], case["preserve"] = P.preserve_paths(rng, tree)
+            pres = [rel for rel in tree["files"] if any(pp == "<ROOT>" or pp == "<ROOT>/" + rel for pp in case["preserve"])]
+            case["tree_meta"] = {"libs": tree["libs"], "clients": tree["clients"], "preserved_files": sorted(pres)}
+            case["safe"] = rng.random() < 0.15
+        else:
+            case["paths"] = ["<ROOT>/" + c for c in tree["clients"]]
+            rng.shuffle(case["paths"])
+            case["tree_meta"] = {"clients": tree["clients"]}
+            case["safe"] = rng.random() < 0.3
+        for _ in range(k):
+            s = gen_sched(rng, len(tree["files"]))
+            s["paths"] = list(case["paths"])
+            case["runs"].append(s)
+        return case
+    tree = gen_tree(rng, pname)
     case: Dict[str, Any] = {
         "engine": "e3",
         "profile": pname,
@@ -777,7 +798,6 @@ def generate(rng: random.Random, profile: Optional[Dict[str, Any]] = None) -> Di
         "runs": [],
         "fault": None,
     }
-    root = "<ROOT>"
     case["paths"] = gen_argv(rng, tree["files"], root)
     for _ in range(k):
         s = gen_sched(rng, len(tree["files"]))
@@ -1048,6 +1068,14 @@ def execute(case: Dict[str, Any]) -> Dict[str, Any]:
             stats.inc("observed.sys_path_not_restored")
         if ref["outcome"][0] != "ok":
             stats.inc("observed.sequential_run_raised." + str(ref["outcome"][1]))
+        if case["profile"] == "preserve":
+            from . import e3_profiles as P
+
+            violations += P.preserve_check(case, ref, stats)
+        elif case["profile"] == "imports":
+            from . import e3_profiles as P
+
+            violations += P.imports_check(case, ref, stats)
         for ri, s in enumerate(case["runs"]):
             spec = {
                 "root": root, "files": case["files"],
@@ -1069,6 +1097,14 @@ def execute(case: Dict[str, Any]) -> Dict[str, Any]:
             signatures.append((C.sha([sorted(case["files"].items()), rf])[:16], cross or s["n_cores"] > 1))
             if any(ev.get("inside_write_window") for ev in run["events"]):
                 stats.inc("runs_with_read_inside_write_window")
+            if case["profile"] == "preserve":
+                from . import e3_profiles as P
+
+                violations += P.preserve_check(case, run, stats)
+            elif case["profile"] == "imports":
+                from . import e3_profiles as P
+
+                violations += P.imports_check(case, run, stats)
             if case["profile"] == "converge" and not violations and run["outcome"][0] == "ok":
                 violations += converge_check(case, s, spec, run, root, stats)
             if violations and not case.get("keep_going"):
